@@ -614,7 +614,63 @@ inline void check_uaf(const Named& n, const char* what)
     if (n.reg && n.reg->freed) log_ev("uaf", n.name, inst_of(n), 0, 0, 0, -1, what);
 }
 
+// plain (non-atomic) library-internal fields that the library declares through the guarded hook type gmlc_verif::plain<T>:
+// every read / write of such a field inside a registered region is logged (no scheduling point) as `pr` / `pw` when the
+// execution runs with plain=1, so that the happens-before monitor judges library internals as well as the payload.
+inline void plain_access(const void* self, bool write, long val)
+{
+    if (!g_rt || !g_rt->active) return;
+    auto it = g_rt->cfg.params.find("plain");
+    if (it == g_rt->cfg.params.end() || it->second == 0) return;
+    Region* r = find_region(self);
+    if (!r) return;  // locals, copies: private
+    std::string nm = r->cls + ".p" + std::to_string((uintptr_t)self - r->base);
+    log_ev(write ? "pw" : "pr", intern(nm), r->inst, val);
+    if (r->freed) log_ev("uaf", intern(nm), r->inst, 0, 0, 0, -1, write ? "pw" : "pr");
+}
+
 }  // namespace vrt
+
+namespace gmlc_verif {
+template<class T>
+class plain {
+    T v_;
+
+  public:
+    plain(): v_{} {}
+    plain(T v): v_(v) { vrt::plain_access(this, true, vrt::toint(v_)); }
+    plain(const plain& o): v_(o.get()) {}
+    plain& operator=(const plain& o) { return *this = o.get(); }
+    plain& operator=(T x)
+    {
+        v_ = x;
+        vrt::plain_access(this, true, vrt::toint(v_));
+        return *this;
+    }
+    T get() const
+    {
+        vrt::plain_access(this, false, vrt::toint(v_));
+        return v_;
+    }
+    operator T() const { return get(); }
+    plain& operator++() { return *this = get() + 1; }
+    plain& operator--() { return *this = get() - 1; }
+    T operator++(int)
+    {
+        T o = get();
+        *this = o + 1;
+        return o;
+    }
+    T operator--(int)
+    {
+        T o = get();
+        *this = o - 1;
+        return o;
+    }
+    plain& operator+=(T x) { return *this = get() + x; }
+    plain& operator-=(T x) { return *this = get() - x; }
+};
+}  // namespace gmlc_verif
 
 // ====================================================================================================
 // instrumented primitives, injected into namespace std under v-names
